@@ -44,7 +44,7 @@ def make_variants(rng, ref, n, kinds=("snv", "snv", "ins", "del", "mnp"), min_ga
                 continue
             v = dict(pos=pos, ref=r, alt=r[0], kind="del")
         out.append(v)
-        pos += len(v["ref"]) + min_gap + rng.randint(0, 25)
+        pos += len(v["ref"]) + min_gap + (rng.randint(0, 25) if min_gap or rng.random() < 0.5 else 0)
     return out
 
 
@@ -143,13 +143,13 @@ def snap(variants, x, left):
 
 def generate(rng, n_samples=(1, 2), n_contigs=(1, 1), ref_len=(300, 500), n_variants=(3, 8), read_len=(40, 120), depth=(2, 8),
              kinds=("snv", "snv", "ins", "del", "mnp"), hom_frac=0.15, softclip=0.2, eqx=0.2, paired=0.0, unrelated_indel=0.0,
-             supplementary=0.0, duplicate=0.0, secondary=0.0, unmapped=0, two_hets_per_read=False, snap_prob=1.0, ploidy=2):
+             supplementary=0.0, duplicate=0.0, secondary=0.0, unmapped=0, two_hets_per_read=False, snap_prob=1.0, ploidy=2, min_gap=12):
     contigs = []
     samples = ["S%d" % i for i in range(rng.randint(*n_samples))]
     for ci in range(rng.randint(*n_contigs)):
         L = rng.randint(*ref_len)
         ref = rand_seq(rng, L)
-        variants = make_variants(rng, ref, rng.randint(*n_variants), kinds=kinds)
+        variants = make_variants(rng, ref, rng.randint(*n_variants), kinds=kinds, min_gap=min_gap)
         contigs.append(dict(name="chr%d" % (ci + 1), seq=ref, variants=variants))
     truth = {}
     reads = []
@@ -252,13 +252,13 @@ def vcf_text(sc, phased=None, samples=None):
         for i, v in enumerate(c["variants"]):
             calls = []
             for s in samples:
-                a, b = sc["truth"][s][c["name"]][0][i], sc["truth"][s][c["name"]][1][i]
-                if phased and s in phased and a != b:
+                col = [h[i] for h in sc["truth"][s][c["name"]]]
+                if phased and s in phased and len(set(col)) > 1:
                     if s not in first_het:
                         first_het[s] = v["pos"] + 1
-                    calls.append("%d|%d:%d" % (a, b, first_het[s]))
+                    calls.append("|".join(map(str, col)) + ":%d" % first_het[s])
                 else:
-                    calls.append("%d/%d" % (min(a, b), max(a, b)) + (":." if phased else ""))
+                    calls.append("/".join(map(str, sorted(col))) + (":." if phased else ""))
             lines.append("\t".join([c["name"], str(v["pos"] + 1), ".", v["ref"], v["alt"], ".", "PASS", ".", "GT:PS" if phased else "GT"] + calls))
     return "\n".join(lines) + "\n"
 
